@@ -19,7 +19,9 @@ LEVEL = "exploration"
 REAL, STUBS = _hist.REAL, _hist.STUBS
 RULE = ("per-run seed -> one deletion-free document sequence committed under 2-3 layout schedules (partition into commits, "
         "merge choice per commit, block size, packing) on the simulated machine + a weighting model + 6 generated query "
-        "trees over Term / And / Or / DisjunctionMax / Require / AndNot / AndMaybe / ConstantScore with boosts. For every "
+        "trees over Term / And / Or / DisjunctionMax / Require / AndNot / AndMaybe / ConstantScore with boosts (weightings incl. one with a "
+        "final() hook that depends on the document; 40% of the non-baseline layouts are measured through a searcher that scored every leaf "
+        "one transaction earlier and was refresh()ed). For every "
         "layout: (b) each compound query's score per document must equal the documented composition of the single-term "
         "scores measured on the same searcher; (c) for BM25F, TF_IDF and Frequency each single-term score must equal the "
         "documented formula evaluated on the reference model's statistics (float32 weight incl. boosts, byte-approximated "
